@@ -1116,6 +1116,8 @@ class Engine:
             return
         if len(segs) >= 2:
             base = type_base(segs[-2])
+            if base.startswith('impl_'):
+                base = base[5:]
             nm = self.impl_index.get((base, None, segs[-1]))
             if nm:
                 ci.target = nm
